@@ -72,6 +72,9 @@ class C03(Check):
                         c['kind'], c['width'] = 'i2', 0
                         c.pop('enum')
                     enum_cols.add(c['name'])
+            if rng.random() < 0.06 and cls != 'unsized_char_start':
+                # one long numerical array column (a spectrum per row)
+                cols.append({'name': 'wide', 'kind': rng.choice(M.NUMKINDS), 'width': 0, 'alen': rng.choice([1000, 1001, 1500])})
             tables.append({'name': nm, 'cols': cols, 'rows': []})
         # tables of one file share column names (besides uid) with different declarations: scalar here, array there
         if ntab >= 2 and rng.random() < 0.6:
@@ -188,7 +191,8 @@ class C03(Check):
 
     @staticmethod
     def _quote(x):
-        return '"%s"' % x if (x == '' or any(ch in x for ch in ' \t#')) else x
+        # bare words are for text without any white-space-class character (that includes VT, FF, FS..US) and without '#'
+        return '"%s"' % x if (x == '' or '#' in x or any(ch.isspace() for ch in x)) else x
 
     def _render_start(self, start):
         ctype = {'i2': 'short', 'i4': 'int', 'i8': 'long', 'f4': 'float', 'f8': 'double'}
